@@ -55,14 +55,13 @@ def applyExisting (ms : List Member) (u : Member) (cond : Member → Bool) :
 def adjustActive (n : Nat) (s : Summary) : Nat :=
   if s.changedActive then (if s.activeNow then n + 1 else n - 1) else n
 
-def swapAt (l : List α) (i j : Nat) : List α :=
-  match l[i]?, l[j]? with
-  | some a, some b => (l.set i b).set j a
-  | _, _ => l
-
-/-- `Members::apply` for an unknown address: push, then swap with the drawn index `j ≤ ms.length`. -/
+/-- `Members::apply` for an unknown address: `push(u)` then `swap(j, len-1)` with the drawn index
+    `j`: position `j` now holds `u` and the record that was there moved to the end. -/
 def applyNew (ms : List Member) (u : Member) (j : Nat) : List Member × Summary :=
-  (swapAt (ms ++ [u]) j ms.length, ⟨u.active, true, u.active, .none⟩)
+  (match ms[j]? with
+   | some x => ms.take j ++ u :: ms.drop (j + 1) ++ [x]
+   | none => ms ++ [u],
+   ⟨u.active, true, u.active, .none⟩)
 
 /-- `permute ms p`: the element now at position `i` came from position `p[i]`. -/
 def permute (ms : List Member) (p : List Nat) : List Member :=
